@@ -713,7 +713,9 @@ struct TemplateCore {
                         ++offset;
                     }
 
-                    if (offset < end_offset) {
+                    // 'Level' has eight bits: a loop nested deeper than 255 tags stays text (level 256 would be level 0 again
+                    // and take over the outermost loop's item).
+                    if ((offset < end_offset) && (parent_storage.Size() < SizeT{256})) {
                         LoopTag *tag = (storage->Insert(TagBit{})).MakeLoopTag();
                         tag->Offset  = loop_offset;
                         tag->Parent  = loop_tag;
